@@ -775,9 +775,52 @@ def sq_empty_base(d):
     return bad
 
 
+def sq_history(d):
+    """HISTORY in one process: the same base URI string and the same output path, the base file rewritten in
+    between (re-binned coarser, other chromsizes, variable widths), the same dtypes/columns objects reused
+    (regression input of D34) -- every level judged for the data stored NOW"""
+    import copy
+    import cooler
+    import h5py
+    a, m = d / "h.cool", d / "h.mcool"
+    dtypes, columns = {}, ["count"]
+    before = copy.deepcopy((dtypes, columns))
+    plans = [
+        (fixed_blocks([130, 47], 10), 10, "int32", [20, 40], 1, 1),
+        (fixed_blocks([130, 47], 20), 20, "float64", [40, 80], 2, 1),                      # same genome coarser, float counts
+        (fixed_blocks([60, 30, 25], 10), 10, "int64", [30, 20], 7, 2),                     # other chromsizes, nproc=2
+        ([[tuple(x) for x in blk] for blk in blocks_from_widths([[3, 8, 4, 6, 9, 2, 2], [5, 1, 7]])], 1, "int32", [2, 4], 1, 1),   # variable bins
+        (fixed_blocks([130, 47], 5), 5, "float64", [10, 20], 3, 1),                        # finer: more bins than ever before
+    ]
+    for step, (blocks, res0, cdt, targets, cs, nproc) in enumerate(plans):
+        n = sum(len(b) for b in blocks)
+        conv = float if cdt == "float64" else int
+        px = [[i, j, conv((3 * i + j) % 7 * (0.25 if cdt == "float64" else 1) + 1)] for i in range(n) for j in range(i, min(n, i + 3))]
+        G.make_cooler(a, blocks, px, True, count_dtype=cdt)
+        cooler.zoomify_cooler(str(a), str(m), targets, chunksize=cs, nproc=nproc, dtypes=dtypes, columns=columns)
+        if (dtypes, columns) != before:
+            return {"what": "zoomify_cooler changed the caller's dtypes/columns objects", "step": step, "after": repr((dtypes, columns))}
+        want = sorted(set(targets) | {res0})
+        bad = _q_listing_bad(f"history step {step}", m, want)
+        if bad:
+            return bad
+        with h5py.File(str(m), "r") as f:
+            for r in want:
+                g = f[f"resolutions/{r}/pixels"]
+                dt = str(np.dtype(g["count"].dtype).name)
+                cv = float if g["count"].dtype.kind == "f" else int
+                got = [[int(x), int(y), cv(v)] for x, y, v in zip(g["bin1_id"][:], g["bin2_id"][:], g["count"][:])]
+                exp = px if r == res0 else [[x, y, conv(v)] for x, y, v in G.oracle_pixels(blocks, px, r // res0)]
+                if dt != cdt or got != exp:
+                    return {"what": f"history step {step}: level {r} does not hold the block aggregation (dtype {cdt}) of the base stored now",
+                            "stored_dtype": dt, "got": got[:10], "expected": exp[:10]}
+    return None
+
+
 SCENARIOS = {"base URI into an mcool / re-run onto an existing file": sq_base_uri_and_rerun,
              "duplicate+unsorted resolutions / dtypes dict": sq_duplicates_and_dtypes,
-             "CLI default output, -p, -c, -i": sq_cli_flags, "empty base cooler": sq_empty_base}
+             "CLI default output, -p, -c, -i": sq_cli_flags, "empty base cooler": sq_empty_base,
+             "history: same base URI and output path, base rewritten, argument objects reused (D34)": sq_history}
 
 
 def run_scenario(ctx_tmp, label, table):
